@@ -116,7 +116,7 @@ def shards(tier):
 
 
 def run_shard(spec, ctx):
-    n = ctx.pick(2400, 26000)
+    n = ctx.pick(2400, 32000)
     return skel.hyp_chunks(strategy(spec["syn"], spec["ls"], spec["lc"], ctx.pick(8, 10)), check_case, ctx, n, core.Rec(), "sk")
 
 
